@@ -24,7 +24,7 @@ RULE = ('Hypothesis draws a pool of 2..3 (T, v) pairs whose schema objects are s
         'what they yield alone; (5) the history run concurrently on 4 threads gives every thread the sequential results (sampled '
         'schedules); (6) with debug logging switched on every outcome is the same. Non-trivial = histories of >= 3 calls on one '
         'schema / interleavings that switch inside an element; distinct = distinct (pool, history).')
-RULE += (' ' + "Also: ANY in the pool types, a call with the caller's own tagMap=, module-level codec tables snapshotted, empty schemaless containers of two results compared for sharing, DEFAULT members of one result read and emptied before another result is looked at.")
+RULE += (' ' + "Also: ANY in the pool types, a call with the caller's own tagMap=, module-level codec tables snapshotted, empty schemaless containers of two results compared for sharing, DEFAULT members of one result read and emptied before another result is looked at. Also: a bulk run - eight threads each encoding and decoding some nine hundred distinct small values of their own (integers, bit strings, OIDs) at once, every result compared with the sequential one; half of the threaded histories run with debug logging on; the debug arm snapshots value and guiding type around every call; results of native.decode (DEFAULT members missing from the mapping) are mutated like those of the BER decoders.")
 ASSUMPTIONS = ['thread schedules are sampled (sys.setswitchinterval(1e-6)), not controlled: this sub-check can expose a race, it '
                'cannot show absence']
 SHARDS = {'quick': (16, 150), 'thorough': (16, 2500)}
@@ -601,6 +601,8 @@ def interleave(pool, items, il, desc):
 
 
 def replay(case):
+    if case.get('bulk_threads') is not None:
+        return [dict(f, case=ir.to_jsonable(case), obs=None) for f in bulk_threads(case['bulk_threads'])]
     return [dict(f, case=ir.to_jsonable(case), obs=None) for f in run_case(case)]
 
 
@@ -656,6 +658,67 @@ def run_shard(desc, seed, tier, col):
             col.fail(f['sub'], f['kind'], f['msg'], case, sig=f['sig'])
 
     harness.run_given(cases(), body, seed, desc['examples'], col)
+    if desc.get('i', 0) % 4 == 0:
+        # (in four of the sixteen shards: eight threads each)
+        for f in bulk_threads(seed, col):
+            col.fail(f['sub'], f['kind'], f['msg'], {'bulk_threads': seed}, sig=f['sig'])
+
+
+def bulk_threads(seed, col=None, n_threads=8, per_thread=700):
+    """Many DISTINCT small values (integers, enumerations, bit strings, short strings) encoded and decoded on several threads at
+    once, each thread with values of its own: whatever the codecs keep between calls (memo tables with eviction, caches keyed by
+    value) is filled and turned over while other threads are inside it. Every result equals the one computed sequentially
+    beforehand."""
+    import threading
+    fails = []
+    work = []
+    for k in range(n_threads):
+        vals = []
+        for j in range(per_thread):
+            x = (seed * 7919 + k * 100003 + j * 17) % 60000 - 30000
+            vals.append((ir.mk('INTEGER'), x))
+            if j % 3 == 0:
+                vals.append((ir.mk('BITSTRING'), (1 + (j + k) % 40, (x * x + k) % (2 ** (1 + (j + k) % 40)))))
+            if j % 5 == 0:
+                vals.append((ir.mk('OID'), (1, 3, 6, abs(x), k, j)))
+        work.append(vals)
+    schs = {k_: build.schema(ir.mk(k_)) for k_ in ('INTEGER', 'BITSTRING', 'OID')}
+    want = [[x690.der(T, v) for T, v in vals] for vals in work]
+    got = [None] * n_threads
+    errs = []
+
+    def run(k):
+        try:
+            out = []
+            for T, v in work[k]:
+                e = lib.ENC['DER'].encode(build.value_from(schs[T['k']], T, v))
+                d, rest = lib.DEC['DER'].decode(e, asn1Spec=schs[T['k']])
+                out.append(e if absval.equal(T, d, v, schs[T['k']])[0] and not rest else b'!decode')
+            got[k] = out
+        except Exception as ex:
+            errs.append(ex)
+    old = sys.getswitchinterval()
+    sys.setswitchinterval(1e-6)
+    try:
+        ths = [threading.Thread(target=run, args=(k,)) for k in range(n_threads)]
+        for t in ths:
+            t.start()
+        for t in ths:
+            t.join(120)
+    finally:
+        sys.setswitchinterval(old)
+    if col is not None:
+        col.case(('bulk-threads', seed), True, ['bulk-threads'], sample={'threads': n_threads, 'distinct_values_per_thread': len(work[0])})
+    for ex in errs[:1]:
+        fails.append({'sub': 'bulk-threads', 'kind': 'leak', 'sig': harness.exc_sig(ex), 'obs': None,
+                      'msg': 'a thread encoding / decoding its own values died with %s: %s' % (harness.exc_sig(ex), str(ex)[:100])})
+    for k in range(n_threads):
+        if got[k] is not None and got[k] != want[k]:
+            j = next(i for i, (a, b) in enumerate(zip(got[k], want[k])) if a != b)
+            fails.append({'sub': 'bulk-threads', 'kind': 'differs', 'sig': '', 'obs': None,
+                          'msg': 'thread %d, value %d (%r): %s, sequentially %s' % (k, j, work[k][j][1], got[k][j].hex()[:40], want[k][j].hex()[:40])})
+            break
+    return fails
 
 
 FINDINGS = {}
